@@ -15,7 +15,9 @@ def run(chk):
 
     traces = []
     # machine shapes: multiples of 12 and ragged; root offsets
-    shapes = [(12, 12), (24, 12), (12, 24), (24, 24), (36, 24), (8, 8), (20, 13), (1, 1), (5, 30), (36, 36)]
+    # (the largest machines have coordinates of 128 and more: the 1200-board system is 240 x 240)
+    shapes = [(12, 12), (24, 12), (12, 24), (24, 24), (36, 24), (8, 8), (20, 13), (1, 1), (5, 30), (36, 36),
+              (240, 240), (132, 24), (12, 156), (255, 250)]
     if not chk.quick:
         shapes += [(w, h) for w in range(1, 37, 5) for h in range(1, 37, 7)]
     roots = [(0, 0), (4, 8), (8, 4), (1, 0), (0, 1), (11, 11), (5, 7)]
@@ -23,9 +25,15 @@ def run(chk):
         roots += [(rng.randint(0, 11), rng.randint(0, 11)) for _ in range(5)]
     else:
         roots = [(x, y) for x in range(12) for y in range(12)]
+    base_roots = roots
     for (w, h) in shapes:
+        # the root chip can be any chip of the machine, not only one of the first board's
+        roots = base_roots + [(rng.randrange(w), rng.randrange(h)) for _ in range(chk.pick(2, 6))] + \
+            ([(rng.randrange(w), rng.randrange(12, h))] if h > 12 else [])
+        if max(w, h) > 100:
+            roots = rng.sample(roots, 4) + roots[-1:]
         for (rx, ry) in roots:
-            if (w, h) not in shapes[:5] and (rx, ry) not in roots[:7] and not chk.quick and rng.random() < 0.7:
+            if (w, h) not in shapes[:5] and (rx, ry) not in base_roots[:7] and not chk.quick and rng.random() < 0.7:
                 continue
             evs = []
             wrap = (w % 12 == 0 and h % 12 == 0)
@@ -33,7 +41,11 @@ def run(chk):
             if len(chips) > chk.pick(150, 600):
                 chips = rng.sample(chips, chk.pick(150, 600))
             for (x, y) in chips:
-                ex, ey = geometry.spinn5_local_eth_coord(x, y, w, h, rx, ry)
+                try:
+                    ex, ey = geometry.spinn5_local_eth_coord(x, y, w, h, rx, ry)
+                except Exception as ex_:          # judged by the specification (NoException)
+                    evs.append(["raise", "spinn5_local_eth_coord", x, y, type(ex_).__name__])
+                    continue
                 evs.append(["eth", x, y, int(ex), int(ey)])
                 chk.note_case(("eth", x % 12, y % 12, w, h, rx, ry))
                 cx, cy = geometry.spinn5_chip_coord(x, y, rx, ry)
